@@ -703,22 +703,24 @@ impl FdlActiveStation {
             current_address + 1
         };
 
-        if next_address >= next_station && next_station > self.p.address {
-            // We have reached the end of the GAP, enter waiting state.
-            GapState::Waiting { rotation_count: 0 }
-        } else if next_address == next_station && next_station == self.p.address {
-            // We have reached the end of the GAP, enter waiting state (NS==TS case).
-            GapState::Waiting { rotation_count: 0 }
-        } else if next_address >= next_station
-            && next_station < self.p.address
-            && next_address < self.p.address
-        {
-            // We have reached the end of the GAP, enter waiting state (wrap-around GAP case).
-            GapState::Waiting { rotation_count: 0 }
+        // The GAP is the set of addresses strictly between TS and NS (cyclically).  When we are
+        // alone in the ring (NS==TS), every other address is part of the GAP.
+        let this_station = self.p.address;
+        let in_gap = if next_station > this_station {
+            next_address > this_station && next_address < next_station
+        } else if next_station < this_station {
+            next_address > this_station || next_address < next_station
         } else {
+            next_address != this_station
+        };
+
+        if in_gap {
             GapState::DoPoll {
                 current_address: next_address,
             }
+        } else {
+            // We have reached the end of the GAP, enter waiting state.
+            GapState::Waiting { rotation_count: 0 }
         }
     }
 
